@@ -130,7 +130,11 @@ func checkBlock(t stats.TB, part string, b *evmgen.BlockCase) (*blockReport, []*
 		}
 	}
 	if wr.Broken != "" || pr.Broken != "" {
-		viol("C05/post-state-unhashable", "the post-state of the block cannot be hashed: "+wr.Broken+pr.Broken, nil)
+		fp := "C05/post-state-unhashable"
+		if (wr.Broken == "" || evmgen.BrokenBySuicideSize(wr.Broken)) && (pr.Broken == "" || evmgen.BrokenBySuicideSize(pr.Broken)) {
+			fp = evmgen.FpSuicideSize
+		}
+		viol(fp, "the post-state of the block cannot be hashed: "+wr.Broken+pr.Broken, nil)
 	}
 
 	// ---- labels ------------------------------------------------------------------------------------
